@@ -40,11 +40,22 @@ def do_import(wt, pid, prefix=""):
         print("imported", dst)
 
 
+_BASE = {}
+
+
+def _pytest_summary(repo):
+    """final summary line of the pinned suite (the command of /root/.vp/BASELINE.json) without the wall time"""
+    r = sh("cd %s && %s -m pytest -q -p no:cacheprovider --timeout=900 --continue-on-collection-errors 2>&1 | tail -1"
+           % (repo, PY), env=dict(os.environ, PYTHONPATH=repo))
+    return r.stdout.strip().split(" in ")[0].strip("= ")
+
+
 def baseline_tests(repo):
-    r = sh("cd %s && %s -m pytest -q -p no:cacheprovider --timeout=900 --continue-on-collection-errors -x -q "
-           "tests/test_util.py tests/test_hierarchy.py tests/test_sonify.py tests/test_input_output.py 2>&1 | tail -3" % (repo, PY),
-           env=dict(os.environ, PYTHONPATH=repo))
-    return r.stdout.strip().split("\n")[-1]
+    """the whole pinned suite on the changed copy; 'same as /repo' when the pass/fail/xfail/xpass counts agree"""
+    if "repo" not in _BASE:
+        _BASE["repo"] = _pytest_summary(REPO)
+    got = _pytest_summary(repo)
+    return ("same as /repo: " if got == _BASE["repo"] else "DIFFERS from /repo (%s): " % _BASE["repo"]) + got
 
 
 def run_one(sid, extra_checks, with_tests):
